@@ -2665,6 +2665,37 @@ impl BytecodeVM {
                 Ok(OpResult::Continue)
             }
 
+            Op::DeclareNamespaceExport { ns, name } => {
+                let name = self
+                    .get_string_constant(name)
+                    .ok_or_else(|| JsError::internal_error("Invalid variable name constant"))?;
+                if let JsValue::Object(ns_obj) = self.get_reg(ns) {
+                    let ns_obj = ns_obj.cheap_clone();
+                    interp.env_define_namespace_export(name, ns_obj);
+                }
+                Ok(OpResult::Continue)
+            }
+
+            Op::BindNamespaceExports { ns } => {
+                if let JsValue::Object(ns_obj) = self.get_reg(ns) {
+                    let ns_obj = ns_obj.cheap_clone();
+                    let names: Vec<JsString> = ns_obj
+                        .borrow()
+                        .properties
+                        .iter()
+                        .filter_map(|(key, prop)| match key {
+                            PropertyKey::String(s) if prop.enumerable() => Some(s.cheap_clone()),
+                            _ => None,
+                        })
+                        .collect();
+                    for name in names {
+                        let name = interp.intern(name.as_str());
+                        interp.env_define_namespace_export(name, ns_obj.cheap_clone());
+                    }
+                }
+                Ok(OpResult::Continue)
+            }
+
             Op::GetGlobal { dst, name } => {
                 let name = self
                     .get_string_constant(name)
